@@ -11,10 +11,10 @@ VARIANTS = ["hufx1", "hufx2"]
 APIS = ["c2", "c2", "c2", "c2", "simple", "cctx", "adv", "udict", "ucdict"]
 
 
-def gen_cases(ctx, n, maxsize):
+def gen_cases(ctx, n, maxsize, start=0):
     rng = ctx.rng
     cases = []
-    for i in range(n):
+    for i in range(start, start + n):
         kind, x = datagen.gen(rng, maxsize if i % 6 == 0 else min(maxsize, 30000))
         api = rng.choice(APIS)
         p = frames.param_vector(rng, ctx.quick()) if api == "c2" else {100: rng.choice([-3, 1, 3, 5, 9, 13, 17, 19])}
@@ -80,7 +80,7 @@ def run(ctx, cases, exe, want_conform=True):
     """returns per-case dict(frame, cdec, conform)"""
     lines = ["comp2 %s %s %s%s" % (c["api"], frames.pstr(c["p"]), frames.hx(c["x"]), (" " + frames.hx(c["d"])) if c["d"] else "") for c in cases if not c.get("pre")]
     def comp(chunk):
-        return frames.run_lines(exe, chunk)[1]
+        return frames.run_lines_exact(exe, chunk)
     frs = frames.parallel(comp, frames.split_chunks(lines, 16))
     # cases with a controlled memory layout of the source (byte in front of the source buffer chosen) go through harness/zvh_seg.c
     plines = [segfam.pre_line(c) for c in cases if c.get("pre")]
@@ -102,14 +102,14 @@ def run(ctx, cases, exe, want_conform=True):
         else:
             dl.append("dec %d %s" % (len(c["x"]), f))
         cl.append("conform %s %s %s %d %d" % (f, frames.hx(c["x"]), frames.hx(c["d"]), c["p"].get(1015, 0), fmt))
-    cdec = frames.parallel(lambda ch: frames.run_lines(exe, ch)[1], frames.split_chunks(dl, 16))
+    cdec = frames.parallel(lambda ch: frames.run_lines_exact(exe, ch), frames.split_chunks(dl, 16))
     # the same frames through the library built with each of its alternative decoder bodies forced (single-stream Huffman + short
     # sequence decoder; double-symbol Huffman + prefetching sequence decoder)
     for c in cases:
         c["vdec"] = {}
     for v in VARIANTS:
         vexe = frames.harness(v)
-        vd = frames.parallel(lambda ch: frames.run_lines(vexe, ch)[1], frames.split_chunks(dl, 16))
+        vd = frames.parallel(lambda ch: frames.run_lines_exact(vexe, ch), frames.split_chunks(dl, 16))
         for c, a in zip(cases, vd):
             c["vdec"][v] = a
     want = frames.parallel(lambda ch: frames.run_lines(exe, ch)[1], frames.split_chunks(["xxh " + frames.hx(c["x"]) for c in cases], 16))
@@ -171,59 +171,76 @@ def correspondence(ctx):
     n = 1500 if ctx.quick() else 30000
     maxsize = 262144 if ctx.quick() else 4 << 20
     # directed: the beginning of the input recurs behind a byte equal to the byte stored in front of the source buffer (segfam.edge_cases)
-    base = gen_cases(ctx, n, maxsize)
-    edge = segfam.edge_cases(ctx.rng, 208 if ctx.quick() else 2080, 18 if ctx.quick() else 180)      # (drawn after the others: their stream is unchanged)
-    cases = run(ctx, base + edge, exe)
+    # in batches: the thorough tier holds inputs of up to 4 MiB (and their hex forms for the two harnesses and the Lean driver) - all 30000 cases at
+    # once need tens of gigabytes; a batch is generated, run, scored and dropped
     import hashlib
-    cov = 0
-    kinds, apis, sizes = {}, {}, {"0": 0, "<1K": 0, "<64K": 0, "<1M": 0, ">=1M": 0}
-    nontrivial = set()
-    rejected_params = 0
+    acc = dict(cov=0, kinds={}, apis={}, sizes={"0": 0, "<1K": 0, "<64K": 0, "<1M": 0, ">=1M": 0}, nontrivial=set(), rejected=0, n=0, samples=[])
+    B = 1500 if ctx.quick() else 600
+    for start in range(0, n, B):
+        score(ctx, run(ctx, gen_cases(ctx, min(B, n - start), maxsize, start), exe), acc, hashlib)
+        if len(ctx.violations) >= 5:
+            break
+    ne, nl = (208, 18) if ctx.quick() else (2080, 180)
+    for k in range(1 if ctx.quick() else 10):
+        if len(ctx.violations) >= 5:
+            break
+        score(ctx, run(ctx, segfam.edge_cases(ctx.rng, ne // (1 if ctx.quick() else 10), nl // (1 if ctx.quick() else 10)), exe), acc, hashlib)      # (drawn after the others: their stream is unchanged)
+    cov, kinds, apis, sizes, nontrivial, rejected_params = acc["cov"], acc["kinds"], acc["apis"], acc["sizes"], acc["nontrivial"], acc["rejected"]
+    covnames = ["raw-block", "rle-block", "compressed-block", "", "lit-raw", "lit-rle", "lit-huf", "lit-treeless", "lit-4streams", "nbSeq=0",
+                "LL-predef", "LL-rle", "LL-fse", "LL-repeat", "OF-predef", "OF-rle", "OF-fse", "OF-repeat", "ML-predef", "ML-rle", "ML-fse", "ML-repeat", "longNbSeq"]
+    return dict(evaluations=acc["n"], distinct_nontrivial=len(nontrivial),
+                rule="inputs from seeded structure-aware generators (text, random, periodic, repcode-heavy, small alphabets, mixed with long-distance copies, tiny sizes) x parameter vectors drawn from the accepted ranges x "
+                     "single-call entry points {compress2, compress, compressCCtx, compress_advanced, usingDict, usingCDict}; plus the directed prefix-edge family (tools/segfam.py: source at offset 1 of a heap block whose byte 0 is chosen, the beginning of the input "
+                     "recurring behind that byte, repeats exactly one window back; every strategy, both match-finder modes, windowLog 10..17; window rule of Conform checked on them); non-trivial = input > 64 bytes, round-tripped and independently decoded; distinct by (input hash, params, api)",
+                samples=acc["samples"],
+                input_kinds=kinds, apis=apis, size_histogram=sizes, decoder_features_hit=[covnames[i] for i in range(len(covnames)) if cov >> i & 1 and covnames[i]],
+                decoder_features_missed=[covnames[i] for i in range(len(covnames)) if not (cov >> i & 1) and covnames[i]], params_rejected_by_setter=rejected_params,
+                entropy_model_ties=ent, rep_code_ties=ntie)
+
+
+def score(ctx, cases, acc, hashlib):
+    """evaluate one batch of run cases into the accumulator (violations go to ctx)"""
+    kinds, apis, sizes, nontrivial = acc["kinds"], acc["apis"], acc["sizes"], acc["nontrivial"]
+    acc["n"] += len(cases)
+    if not acc["samples"]:
+        acc["samples"] = [dict(api=c["api"], params=frames.pstr(c["p"]), kind=c["kind"], size=len(c["x"]), frame_bytes=len(c["frame"]) // 2, conform=c["conform"][:80]) for c in cases[:3]]
     for c in cases:
         kinds[c["kind"]] = kinds.get(c["kind"], 0) + 1
         apis[c["api"]] = apis.get(c["api"], 0) + 1
         n_ = len(c["x"])
         sizes["0" if n_ == 0 else "<1K" if n_ < 1024 else "<64K" if n_ < 65536 else "<1M" if n_ < (1 << 20) else ">=1M"] += 1
-        rep = dict(kind="monitor", api=c["api"], params=c["p"], input_hex=frames.hx(c["x"])[:8400000], dict_hex=frames.hx(c["d"]), frame=c["frame"][:8400000])
-        if c.get("pre"): rep["pre"] = c["pre"]
+        def mkrep(c=c):      # (built only for a violation: the hex form of every input is what the thorough tier cannot afford)
+            rep = dict(kind="monitor", api=c["api"], params=c["p"], input_hex=frames.hx(c["x"])[:8400000], dict_hex=frames.hx(c["d"]), frame=c["frame"][:8400000])
+            if c.get("pre"): rep["pre"] = c["pre"]
+            return rep
         if c["frame"].startswith("err"):
             if c["frame"] in ("err parameter_outOfBound", "err parameter_unsupported"):
-                rejected_params += 1
+                acc["rejected"] += 1
                 continue
-            ctx.violation("single-call compression into a compressBound-sized buffer failed: %s (api %s)" % (c["frame"], c["api"]), rep)
+            ctx.violation("single-call compression into a compressBound-sized buffer failed: %s (api %s)" % (c["frame"], c["api"]), mkrep())
             continue
         if c["cdec"] != c["want"]:
-            ctx.violation("round trip broken: ZSTD_decompress of the emitted frame gives %r, expected %r (api %s, params %s)" % (c["cdec"], c["want"], c["api"], frames.pstr(c["p"])), rep)
+            ctx.violation("round trip broken: ZSTD_decompress of the emitted frame gives %r, expected %r (api %s, params %s)" % (c["cdec"], c["want"], c["api"], frames.pstr(c["p"])), mkrep())
             continue
         bad = [v for v in VARIANTS if c.get("vdec", {}).get(v, c["want"]) != c["want"]]
         if bad:
-            ctx.violation("round trip broken in the library built with decoder variant %s: ZSTD_decompress gives %r, expected %r (api %s, params %s)" % (bad[0], c["vdec"][bad[0]], c["want"], c["api"], frames.pstr(c["p"])), dict(rep, variant=bad[0]))
+            ctx.violation("round trip broken in the library built with decoder variant %s: ZSTD_decompress gives %r, expected %r (api %s, params %s)" % (bad[0], c["vdec"][bad[0]], c["want"], c["api"], frames.pstr(c["p"])), dict(mkrep(), variant=bad[0]))
             continue
         if c["conform"].startswith("ok"):
-            cov |= int(c["conform"].split("cov=")[1])
+            acc["cov"] |= int(c["conform"].split("cov=")[1])
             if n_ > 64:
                 nontrivial.add(hashlib.sha1(c["x"]).hexdigest() + frames.pstr(c["p"]) + c["api"])
         elif c["conform"].startswith("viol"):
             # conformance is C05's property; C01 only needs the independent decode to agree - except, on the directed prefix-edge inputs, the rule
             # that a match never reaches below the window / the start of the content: a decoder that keeps exactly one window cannot regenerate such a frame
             if c.get("pre") and "violates window" in c["conform"]:
-                ctx.violation("single-call compression emitted a match that reaches below the window / the start of the content: %s (api %s, params %s)" % (c["conform"][:300], c["api"], frames.pstr(c["p"])), rep)
+                ctx.violation("single-call compression emitted a match that reaches below the window / the start of the content: %s (api %s, params %s)" % (c["conform"][:300], c["api"], frames.pstr(c["p"])), mkrep())
         else:
             # the independent decoder disagrees with the library on a frame the library round-trips
             ctx.violation("independent Lean decoder disagrees on a library frame: %r (C decoder: %r)" % (c["conform"], c["cdec"]),
-                          dict(rep, kind="tie", correspondence="Model/Frame.lean vs ZSTD_decompress"), no_input=True)
+                          dict(mkrep(), kind="tie", correspondence="Model/Frame.lean vs ZSTD_decompress"), no_input=True)
         if len(ctx.violations) >= 5:
             break
-    covnames = ["raw-block", "rle-block", "compressed-block", "", "lit-raw", "lit-rle", "lit-huf", "lit-treeless", "lit-4streams", "nbSeq=0",
-                "LL-predef", "LL-rle", "LL-fse", "LL-repeat", "OF-predef", "OF-rle", "OF-fse", "OF-repeat", "ML-predef", "ML-rle", "ML-fse", "ML-repeat", "longNbSeq"]
-    return dict(evaluations=len(cases), distinct_nontrivial=len(nontrivial),
-                rule="inputs from seeded structure-aware generators (text, random, periodic, repcode-heavy, small alphabets, mixed with long-distance copies, tiny sizes) x parameter vectors drawn from the accepted ranges x "
-                     "single-call entry points {compress2, compress, compressCCtx, compress_advanced, usingDict, usingCDict}; plus the directed prefix-edge family (tools/segfam.py: source at offset 1 of a heap block whose byte 0 is chosen, the beginning of the input "
-                     "recurring behind that byte, repeats exactly one window back; every strategy, both match-finder modes, windowLog 10..17; window rule of Conform checked on them); non-trivial = input > 64 bytes, round-tripped and independently decoded; distinct by (input hash, params, api)",
-                samples=[dict(api=c["api"], params=frames.pstr(c["p"]), kind=c["kind"], size=len(c["x"]), frame_bytes=len(c["frame"]) // 2, conform=c["conform"][:80]) for c in cases[:3]],
-                input_kinds=kinds, apis=apis, size_histogram=sizes, decoder_features_hit=[covnames[i] for i in range(len(covnames)) if cov >> i & 1 and covnames[i]],
-                decoder_features_missed=[covnames[i] for i in range(len(covnames)) if not (cov >> i & 1) and covnames[i]], params_rejected_by_setter=rejected_params,
-                entropy_model_ties=ent, rep_code_ties=ntie)
 
 
 def replay(ctx, data):
